@@ -522,7 +522,7 @@ def run(tier, seed):
         cases.append(("pair2", 2, [[{"w": a, "c": [1, 0, 0]}], [{"w": b, "c": [1, 0, 0]}]]))
     for sub in itertools.chain.from_iterable(itertools.combinations([[1], [2], [3]], r) for r in (1, 2, 3)):
         cases.append(("one-qubit", 1, [[{"w": w, "c": [1, 0, 0]}] for w in sub]))
-    for i in range(60 if quick else 250):
+    for i in range(60 if quick else 500):
         n, gens = random_case(rng, 3)
         cases.append((f"random{i}", n, gens))
     for i, (tag, n, gens) in enumerate(cases):
@@ -531,7 +531,7 @@ def run(tier, seed):
         plain = form == "operator" and i % 4 == 1
         closure_case(cx, tag, n, gens, form, pick_labels(rng, n, plain))
     # ---- PauliVSpace
-    for i in range(60 if quick else 300):
+    for i in range(60 if quick else 500):
         n, gens = random_case(rng, 3)
         extra = random_case(rng, n)[1] if rng.random() < 0.5 else []
         gens = gens + [e for e in extra if all(len(t["w"]) == n for t in e)]
@@ -633,7 +633,7 @@ def run(tier, seed):
            "samples": samples, "exhaustive": True,
            "exhaustive_part": "involutions: every Pauli word on 1..3 wires x every involution x every wire position x {PauliSentence, operator, dense matrix}; model laws on every pair of words on <= 3 wires"
                               + ("" if quick else "; closures of every pair of 2-qubit words"),
-           "sampled_part": f"{len(cases)} generator sets (named models, {'40 sampled' if quick else 'all 105'} pairs of 2-qubit words, 1-qubit subsets, seeded words / sentences with dyadic coefficients on <= 3 qubits); {60 if quick else 300} PauliVSpace histories; {NS} TLC-generated sentence lists for the model laws",
+           "sampled_part": f"{len(cases)} generator sets (named models, {'40 sampled' if quick else 'all 105'} pairs of 2-qubit words, 1-qubit subsets, seeded words / sentences with dyadic coefficients on <= 3 qubits); {60 if quick else 500} PauliVSpace histories; {NS} TLC-generated sentence lists for the model laws",
            "involution_answers_replayed": n_inv, "negative_controls_rejected": neg,
            "outside_documented_precondition": skipped,
            "cartan_inclusions": {"hold": rel_hold, "fail": rel_fail},
